@@ -96,7 +96,12 @@ def class_member(interp, info, self_, attr, node):
         if any(d in ('property', 'cached_property', 'functools.cached_property') for d in decs):
             if self_ is None:
                 raise Unsupported("property on class")
-            return interp.call_func(FuncV(m, qual, cls), [self_], {}, node)
+            v = interp.call_func(FuncV(m, qual, cls), [self_], {}, node)
+            if any('cached_property' in d for d in decs) and isinstance(self_, Obj):
+                # functools.cached_property: the value is stored in the instance __dict__ and found there from now on
+                # (also by shallow copies of the object).  The cache store itself is not logged as a frame write.
+                self_.fields[attr] = v
+            return v
         f = FuncV(m, qual, cls)
         if self_ is None:
             return f
